@@ -340,6 +340,9 @@ func numericC12(o *Opts) {
 		codes := make([]uint64, dim)
 		for i := range v {
 			v[i] = rng.Float64()*2.4 - 1.2
+			if rng.Intn(4) == 0 { // values the encoder might treat specially: zeros, the ends, exact levels, midpoints
+				v[i] = []float64{0, math.Copysign(0, -1), 1, -1, 0.5, -0.5, 1.5, -1.5, 1e-300, -1e-300, 1.0 / 15, 1.0 / 255, 1.0 / 65535, math.Nextafter(0, 1), math.Nextafter(0, -1)}[rng.Intn(15)]
+			}
 			codes[i] = syzgydb.VerifQuantize(v[i], b)
 		}
 		enc := syzgydb.VerifEncodeVector(v, b)
